@@ -527,42 +527,79 @@ example : (⟨2, 2, [⟨2, 0, 0x0a000000, 0xff000000, 0, 16⟩]⟩ : Rip).Fits :
 
 /-- `ethernet(raw)` over the extended model: same header, payload handed to VLAN / ARP / IPv4 / IPv6 / LLDP / EAPOL / MPLS /
 LLC (802.3 length) or kept opaque, by EtherType -/
-theorem xparse_eth_dispatch (f : Nat) (ctx : Option XCtx) (h : Eth) (payload : Bytes) (hf : h.Fits) :
-    xparse (f + 1) ctx (.core .eth) (ethBytes h ++ payload) = .eth h (xEthNext (xparse f) h.type payload) :=
-  xparse_eth f ctx h payload hf
+theorem xparse_eth_dispatch (cfg : XCfg) (f : Nat) (ctx : Option XCtx) (h : Eth) (payload : Bytes) (hf : h.Fits) :
+    xparse cfg (f + 1) ctx (.core .eth) (ethBytes h ++ payload) = .eth h (xEthNext (xparse cfg f) h.type payload) :=
+  xparse_eth cfg f ctx h payload hf
 
 /-- `ipv4(raw)` over the extended model: UDP / TCP / ICMP / IGMP / GRE by protocol number, fragments and unknown
 protocols opaque, an unparsed child replaced by the bytes -/
-theorem xparse_ipv4_dispatch (f : Nat) (ctx : Option XCtx) (h : IPv4) (payload : Bytes) (hf : h.Fits)
+theorem xparse_ipv4_dispatch (cfg : XCfg) (f : Nat) (ctx : Option XCtx) (h : IPv4) (payload : Bytes) (hf : h.Fits)
     (hn : h.hl * 4 + payload.length < 65536) :
-    xparse (f + 1) ctx (.core .ipv4) (ipv4Bytes h payload.length ++ payload)
-      = .ipv4 (ipv4Upd h payload.length) (xIp4Next (xparse f) h.frag h.proto payload) :=
-  xparse_ipv4 f ctx h payload hf hn
+    xparse cfg (f + 1) ctx (.core .ipv4) (ipv4Bytes h payload.length ++ payload)
+      = .ipv4 (ipv4Upd h payload.length) (xIp4Next (xparse cfg f) h.frag h.proto payload) :=
+  xparse_ipv4 cfg f ctx h payload hf hn
 
 /-- `udp(raw)` over the extended model: ports 520 → RIP, 4789 → VXLAN (67/68/53/5353 → DHCP/DNS, outside the model) -/
-theorem xparse_udp_dispatch (f : Nat) (ctx : Option XCtx) (c : IPCtx) (h : Udp) (payload : Bytes) (hf : h.Fits)
+theorem xparse_udp_dispatch (cfg : XCfg) (f : Nat) (ctx : Option XCtx) (c : IPCtx) (h : Udp) (payload : Bytes) (hf : h.Fits)
     (hn : payload.length + 8 < 65536) :
-    xparse (f + 1) ctx (.core .udp) (udpBytes c h payload ++ payload)
+    xparse cfg (f + 1) ctx (.core .udp) (udpBytes c h payload ++ payload)
       = .udp (udpUpd c h payload)
           (match udpSel h with
-           | some tag => contOf (xparse f) tag payload
+           | some tag => contOf (xparse cfg f) tag payload
            | none => .raw payload) :=
-  xparse_udp f ctx c h payload hf hn
+  xparse_udp cfg f ctx c h payload hf hn
 
 example : udpSel ⟨520, 520, 0, 0⟩ = some "rip" ∧ udpSel ⟨50000, 4789, 0, 0⟩ = some "vxlan" ∧ udpSel exUdp = none := by decide
 
 /-- the LLDP probe frame as a whole (what `discovery` sends on every port and parses on every packet-in) -/
-theorem lldp_frame_roundtrip (e : Eth) (c p t : Tlv) (mid : List Tlv) (he : e.Fits) (hty : e.type = 0x88cc) (hc : c.OK)
+theorem lldp_frame_roundtrip (cfg : XCfg) (e : Eth) (c p t : Tlv) (mid : List Tlv) (he : e.Fits) (hty : e.type = 0x88cc) (hc : c.OK)
     (hp : p.OK) (ht : t.OK) (tc : tlvType c = 1) (tp : tlvType p = 2) (tt : tlvType t = 3)
     (hmid : ∀ q ∈ mid, q.OK ∧ tlvType q ≠ 0) :
-    xpack none (.eth e (.lldp (c :: p :: t :: (mid ++ [.end_]))))
+    xpack cfg none (.eth e (.lldp (c :: p :: t :: (mid ++ [.end_]))))
         = .ok (ethBytes e ++ lldpBytes (c :: p :: t :: (mid ++ [.end_]))) ∧
-    xparseTop (.core .eth) (ethBytes e ++ lldpBytes (c :: p :: t :: (mid ++ [.end_])))
+    xparseTop cfg (.core .eth) (ethBytes e ++ lldpBytes (c :: p :: t :: (mid ++ [.end_])))
         = .eth e (.lldp (c :: p :: t :: (mid ++ [.end_]))) ∧
-    xpack none (xparseTop (.core .eth) (ethBytes e ++ lldpBytes (c :: p :: t :: (mid ++ [.end_]))))
+    xpack cfg none (xparseTop cfg (.core .eth) (ethBytes e ++ lldpBytes (c :: p :: t :: (mid ++ [.end_]))))
         = .ok (ethBytes e ++ lldpBytes (c :: p :: t :: (mid ++ [.end_]))) :=
-  Pox.Packet.lldp_frame_roundtrip e c p t mid he hty hc hp ht tc tp tt hmid
+  Pox.Packet.lldp_frame_roundtrip cfg e c p t mid he hty hc hp ht tc tp tt hmid
 
 example : ({ exEth with type := 0x88cc } : Eth).Fits := by constructor <;> decide
+
+/-! ## code variants: the proposed repairs of D50 and D49 (the harness reads off the source which variant a tree has) -/
+
+/-- with fixes/C14_D50_rip_metric_unsigned.diff (`struct 'I'`): every 32-bit metric, 0 … 2³²−1, is packed and read back -/
+theorem rip_roundtrip_unsigned (h : Rip) (hf : h.FitsU) :
+    ∃ bs, ripHdrV true h = .ok bs ∧ bs.length = 4 + 20 * h.entries.length ∧ ripParseV true bs = .rip h := by
+  refine ⟨ripBytes h, ripHdrU_ok h hf, ?_, ripU_parse h hf⟩
+  simp [ripBytes, ripEntriesBytes_length]; omega
+
+example : (⟨2, 2, [⟨2, 0, 0x0a000000, 0xff000000, 0, 0xffffffff⟩]⟩ : Rip).FitsU := by
+  refine ⟨by decide, by decide, ?_, by simp⟩
+  intro e he
+  simp only [List.mem_cons, List.not_mem_nil, or_false] at he
+  subst he
+  constructor <;> decide
+
+/-- with fixes/C14_D49_eap_keep_type_data.diff: an EAP request/response keeps type octet + type data as its payload, so
+parse returns header and payload and `hdr + payload` is the original message (all four codes) -/
+theorem eap_roundtrip_body (h : Eap) (payload : Bytes) (hc : h.code < 256) (hi : h.id < 256) (hl : h.length < 65536)
+    (hp : payload ≠ [] → h.code = 1 ∨ h.code = 2) :
+    ∃ bs, eapHdr h = .ok bs ∧
+      eapParseV true (bs ++ payload) = .eap h (if payload = [] then .nil else .raw payload) := by
+  have he : encode eapolL [.num h.code, .num h.id, .num h.length] = some (eapBytes h) := by
+    simp [eapolL, encode, eapBytes, be16, hc, hi, hl]
+  refine ⟨eapBytes h, pk_of_encode he, ?_⟩
+  have hv : eapParseV true (eapBytes h ++ payload) = eapParseB (eapBytes h ++ payload) := rfl
+  rw [hv, eapB_parse h payload hc hi hl]
+  by_cases hn : payload = []
+  · simp [hn]
+  · simp [hn, hp hn]
+
+example : ([1, 0x61] : Bytes) ≠ [] → (1 : Nat) = 1 ∨ (1 : Nat) = 2 := fun _ => Or.inl rfl
+
+/-- at /repo HEAD (`XCfg.head`) the extended parser uses the unrepaired `rip` / `eap` code paths -/
+theorem variant_head (raw : Bytes) : ripParseV XCfg.head.ripUnsigned raw = ripParse raw ∧
+    eapParseV XCfg.head.eapBody raw = eapParse raw ∧ ∀ h, ripHdrV XCfg.head.ripUnsigned h = ripHdr h :=
+  ⟨rfl, rfl, fun _ => rfl⟩
 
 end Pox.C14
